@@ -271,13 +271,14 @@ impl<'a> BTreeReader<'a> {
 
             match header.page_type() {
                 PageType::BTreeLeaf => {
-                    let leaf = LeafNode::from_page(page_data)?;
-                    let exhausted = leaf.cell_count() == 0;
+                    // the leftmost leaf may have been emptied by deletes
+                    let (current_page, current_index, exhausted) =
+                        settle_forward(self.storage, current_page, 0)?;
                     return Ok(Cursor {
                         storage: self.storage,
                         root_page: self.root_page,
                         current_page,
-                        current_index: 0,
+                        current_index,
                         exhausted,
                     });
                 }
@@ -1296,13 +1297,14 @@ impl<'a, S: Storage> BTree<'a, S> {
 
             match header.page_type() {
                 PageType::BTreeLeaf => {
-                    let leaf = LeafNode::from_page(page_data)?;
-                    let exhausted = leaf.cell_count() == 0;
+                    // the leftmost leaf may have been emptied by deletes
+                    let (current_page, current_index, exhausted) =
+                        settle_forward(self.storage, current_page, 0)?;
                     return Ok(Cursor {
                         storage: self.storage,
                         root_page: self.root_page,
                         current_page,
-                        current_index: 0,
+                        current_index,
                         exhausted,
                     });
                 }
@@ -1438,33 +1440,20 @@ impl<'a, S: Storage + ?Sized> Cursor<'a, S> {
         }
 
         let next_page = leaf.next_leaf();
+        if next_page != 0 && next_page < self.storage.page_count() {
+            self.storage.prefetch_pages(next_page + 1, 2);
+        }
 
-        if next_page == 0 {
+        // leaves emptied by deletes stay in the chain: skip them
+        let (page_no, index, exhausted) =
+            settle_forward(self.storage, self.current_page, self.current_index)?;
+        if exhausted {
             self.exhausted = true;
             return Ok(false);
         }
 
-        let page_count = self.storage.page_count();
-        if next_page >= page_count {
-            bail!(
-                "corrupt next_leaf pointer: page {} has next_leaf={} but page_count={}",
-                self.current_page,
-                next_page,
-                page_count
-            );
-        }
-
-        self.storage.prefetch_pages(next_page + 1, 2);
-
-        self.current_page = next_page;
-        self.current_index = 0;
-
-        let next_page_data = self.storage.page(self.current_page)?;
-        let next_leaf = LeafNode::from_page(next_page_data)?;
-        if next_leaf.cell_count() == 0 {
-            self.exhausted = true;
-            return Ok(false);
-        }
+        self.current_page = page_no;
+        self.current_index = index;
 
         Ok(true)
     }
